@@ -694,15 +694,19 @@ class PipelinedServer(Bounded):
     prop = "C21"
     title = ("pipelined request streams against the real HTTPChannel/Request (and Site): requests handed one at a "
              "time, in order and intact; wire parses as the responses in request order; each notifyFinish fires once")
-    scope = ("1..3 requests (thorough 4 in the random part) from {immediate GET, deferred GET (with/without an early "
-             "write, with a push producer, never finished), POST with Content-Length / chunked body / stray CRLF, "
-             "Connection: close, HTTP/1.0 immediate and deferred}; stream delivered whole, per request, at every "
-             "2-way split (1..2 requests) and at 3-way splits around syntactic boundaries; every event script up to a "
-             "length bound over {deliver next chunk, application write, application finish, send buffer full, send "
-             "buffer drained}, each also cut short by connection loss at every event boundary; transport pausing "
-             "the channel from inside write() (cap 0) or only at boundaries; http.Request subclass on HTTPChannel "
-             "and server.Site resource; transport with and without IPushProducer; then settled and checked for "
-             "progress")
+    scope = ("pipelines of 1..3 requests (2..4 in the thorough seeded-random part) over {GET answered inside render, GET "
+             "answered later (optionally with a write inside render, with a push producer, or never), POST with "
+             "Content-Length / chunked body / trailing stray CRLF / Expect: 100-continue / 20000-byte body, Connection: "
+             "close, HTTP/1.0 answered at once or later}; quick uses 6 of these kinds for pairs and 3..5 for triples; "
+             "stream delivered whole, per request, at every 2-way split (single requests; pairs: quick around every "
+             "syntactic boundary, thorough every byte) and at all 3-way splits around syntactic boundaries (selected "
+             "pairs/triples); every event script up to (events needed + 1..3) over {deliver next chunk, application "
+             "write, application finish, send buffer full, send buffer drained}, every script also ended by connection "
+             "loss, so loss is injected at every event boundary; the transport pausing the channel from inside write() "
+             "or only between events; http.Request subclass on HTTPChannel and Resource under server.Site; transport "
+             "with and without IPushProducer/IConsumer; surviving connections are then settled and checked for "
+             "progress.  Not covered: idle timeouts, HTTP/2, resources that raise, notifyFinish() asked for after the "
+             "response ended")
     functions = ["HTTPChannel.dataReceived", "HTTPChannel.lineReceived", "HTTPChannel.rawDataReceived",
                  "HTTPChannel.allContentReceived", "HTTPChannel.requestDone", "HTTPChannel.connectionLost",
                  "HTTPChannel.pauseProducing", "HTTPChannel.resumeProducing", "HTTPChannel.loseConnection",
@@ -758,10 +762,12 @@ class PipelinedServer(Bounded):
                         for cap in (None, 0):
                             if cap == 0 and quick and n == 3:
                                 continue
+                            deep = not quick and cap is None and set(reqs) <= set("ilwpcn" if n < 3 else "iln")
                             if n == 3:
-                                ss = scripts(nch, nlater, base + (1 if quick else 2), not quick or cap is None, 0 if quick else 1)
+                                ss = scripts(nch, nlater, base + (2 if deep else 1), not quick or cap is None,
+                                             0 if quick else 1)
                             else:
-                                ss = scripts(nch, nlater, base + (2 if quick else 3), True, 1)
+                                ss = scripts(nch, nlater, base + (3 if deep else 2), True, 1)
                             for s in ss:
                                 yield from emit(mode, cap, reqs, cuts, s)
 
